@@ -6,7 +6,8 @@ package bfe_tls
 //
 // Engine E5 (fault enumeration on the record stream). For every class (cipher suite family x
 // protocol version x client implementation) ONE real handshake is run between a real client
-// (Go's crypto/tls, or bfe_tls's own client for SSL3.0 / SM4) and the real bfe_tls server over
+// (Go's crypto/tls; bfe_tls's own client, also for SM4; for SSL 3.0, which neither client speaks,
+// a handshake driven by the harness with bfe_tls's client pieces) and the real bfe_tls server over
 // an in-memory pipe; the client then writes three application chunks and closes (close_notify).
 // All client->server bytes are recorded. Both sides use constant-byte entropy, so the server's
 // handshake is a deterministic function of the client's bytes: every case creates a FRESH real
@@ -20,7 +21,9 @@ package bfe_tls
 // padding), cut the stream at every byte offset, drop / duplicate / swap records, replay record
 // i at boundary j, replay the handshake's ChangeCipherSpec / Finished records, inject forged
 // cleartext records (close_notify, warning alert, empty application data, CCS, handshake);
-// and every ordered pair of operations from a reduced set.
+// and every ordered pair (thorough: also triple) of operations from a reduced set. The large
+// families start from a snapshot of the real post-handshake server Conn (see c42snap), which is
+// cross-checked case by case against runs that really re-do the handshake.
 //
 // Oracle (from the statement only):
 //   prefix  — the bytes delivered by Conn.Read are a prefix of the bytes the client wrote;
